@@ -300,6 +300,12 @@ class MinFlowDecomp(pathmodel.AbstractPathModelDAG): # Note that we inherit from
         
         # print("all_weights_list", sorted(all_weights_list))
 
+        # Weights that are zero up to the solver's tolerance (e.g. a rounding residue such as 2e-16 in the generating set)
+        # are useless as path weights, and the solver refuses such coefficients
+        all_weights_list = [w for w in all_weights_list if abs(w) > 1e-9]
+        if len(all_weights_list) == 0:
+            return
+
         given_weights_optimization_options = copy.deepcopy(self.optimization_options)
         given_weights_optimization_options["optimize_with_greedy"] = False
         utils.logger.info(f"{__name__}: Solving with given weights = {all_weights_list}")
